@@ -44,7 +44,7 @@ int cmp_cb(const void *a, const void *b, void *p)
 }
 
 struct Heap;
-struct ClearCtx { Heap *h; std::unordered_set<Elem *> *expect; size_t calls; bool bad; };
+struct ClearCtx { Heap *h; std::unordered_set<Elem *> *expect; size_t calls; bool bad; bool keep = false; };
 ClearCtx *g_clear_ctx;
 
 struct Heap {
@@ -53,12 +53,15 @@ struct Heap {
     std::unordered_set<Elem *> held;          // elements in the heap (pointer identity)
     std::map<long, size_t> ranks;              // rank (position in the comparison order) -> how many held elements have it
     std::vector<Elem *> all;
+    std::vector<Elem *> recycle;             // elements that left the heap (pop / kept by the clear callback) and may be pushed again:
+                                             // an element's life is not one stay in one container
     int next_id;
     void init(const char *t)
     {
         tag = t;
         fresh_clear(held);
         ranks.clear();
+        recycle.clear();
         next_id = 0;
         memset(&h, 0xA5, sizeof h);      // init must set every field itself (storage that is not zero-filled)
         cstl_heap_init(&h, cmp_cb, &g_priv_token, offsetof(Elem, hn));
@@ -96,7 +99,8 @@ void clear_cb(void *obj, void *priv)
     if (!c->expect->count(e)) { c->bad = true; return; }    // unknown or already handed over: do not touch
     c->expect->erase(e);
     if (++e->cleared > 1) { c->bad = true; return; }
-    c->h->kill(e);
+    if (c->keep && c->h->recycle.size() < 3) c->h->recycle.push_back(e);      // the callee owns it now: here it keeps it for later
+    else c->h->kill(e);
 }
 
 typedef std::vector<long> Obs;
@@ -154,7 +158,15 @@ void apply(Heap &hp, CaseCtx &cx, int op, uint8_t a, uint8_t b, int K, size_t ma
     case PUSH: {
         if (hp.held.size() >= maxlive) { CNT("noop.maxlive"); TRACE("%s push noop", hp.tag); return; }
         int prio = (int)((a | (b << 8)) % (unsigned)K);
-        Elem *e = hp.mk(prio);
+        Elem *e;
+        if (!hp.recycle.empty() && !obs && ((a ^ b) & 4)) {
+            // an element that was in the heap before (popped, or handed back by clear) goes in again, node contents as they were left
+            e = hp.recycle.back();
+            hp.recycle.pop_back();
+            e->prio = prio;
+            e->cleared = 0;
+            CNT("class.push.reused_element");
+        } else e = hp.mk(prio);
         LIB(cstl_heap_push(&hp.h, e));
         hp.held.insert(e);
         hp.ranks[rank_of(prio)]++;
@@ -181,7 +193,7 @@ void apply(Heap &hp, CaseCtx &cx, int op, uint8_t a, uint8_t b, int K, size_t ma
                 if (hp.held.size() >= 4 && ties >= 2) { cx.pop4ties = true; CNT("class.pop_ties4"); }
                 hp.held.erase(it);
                 if (--hp.ranks[got] == 0) hp.ranks.erase(got);
-                hp.kill((Elem *)r);
+                if (!obs && hp.recycle.size() < 3 && (b & 2)) hp.recycle.push_back((Elem *)r); else hp.kill((Elem *)r);
                 cx.popped = true;
             }
         } else CNT("class.empty_top");
@@ -191,6 +203,7 @@ void apply(Heap &hp, CaseCtx &cx, int op, uint8_t a, uint8_t b, int K, size_t ma
         std::unordered_set<Elem *> expect(hp.held.begin(), hp.held.end());
         hp.ranks.clear();
         ClearCtx cc{&hp, &expect, 0, false};
+        cc.keep = !obs && (b & 1);
         g_clear_ctx = &cc;
         size_t n = hp.held.size();
         fresh_clear(hp.held);
@@ -257,6 +270,7 @@ void vf_run(const uint8_t *data, size_t len)
             std::swap(H.held, HW.held);
             std::swap(H.ranks, HW.ranks);
             std::swap(H.all, HW.all);
+            std::swap(H.recycle, HW.recycle);
             swapped = true;
             CNT("class.swap");
             TRACE("swap heap <-> heap' (now %zu and %zu elements)", H.held.size(), HW.held.size());
@@ -303,6 +317,7 @@ void vf_run(const uint8_t *data, size_t len)
     }
     apply(H, cx, CLEAR, 0, 0, K, maxlive, nullptr, false);
     if (twin || swapped) apply(HW, cx, CLEAR, 0, 0, K, maxlive, nullptr, false);
+    for (Heap *hp : {&H, &HW}) { for (Elem *e : hp->recycle) hp->kill(e); hp->recycle.clear(); }
     CHECK(H.all.empty() && (!swapped || HW.all.empty()), "C15.heap.once", "%zu elements never reached the clear callback", H.all.size() + HW.all.size());
     g_nontrivial = c15 ? (cx.clear3 && cx.reuse) : (cx.push_after_pop && cx.pop4ties);
     CNTN("ops", nops);
